@@ -759,7 +759,8 @@ def enclosing_loop_iters(node, fn_node):
 
 
 class Cross(object):
-    def __init__(self, key, func, pattern, what, classes=('ConfigError',), loop=None, inline=4, handler=None):
+    def __init__(self, key, func, pattern, what, classes=('ConfigError',), loop=None, inline=4, handler=None, optional=False):
+        self.optional = optional  # a reviewed raise site that is not a cross-option rule of the property (accounted for only)
         self.key = key
         self.func = func
         self.patterns = pattern if isinstance(pattern, (list, tuple)) else [pattern]
@@ -796,6 +797,8 @@ CROSS_RULES = [
           'variables and user constants may not share a name', inline=1),
     Cross('single answer', LGQ + 'schema_answers', 'isinstance(answers_tuple, list) and len(answers_tuple) == 1',
           'a ListGrader needs more than one answer'),
+    Cross('answers container type', LGQ + 'schema_answers', 'not isinstance(answers_tuple, tuple)',
+          'answers must be a list or a tuple of lists (also enforced by the schema)', optional=True),
     Cross('equal list lengths', LGQ + 'schema_answers', 'len(_L) != len(answers_tuple[0])',
           'alternative answer lists must have the same length', loop='answers_tuple'),
     Cross('answer/subgrader count', LGQ + 'schema_answers',
@@ -818,10 +821,12 @@ CROSS_RULES = [
           "self.subgrader_list and len(_G) > 1 and not isinstance(self.config['subgraders'][_I], ListGrader)",
           'a group with several inputs must be graded by a ListGrader'),
     Cross('nested delimiters', SLQ + '__init__',
-          "isinstance(self.config['subgrader'], SingleListGrader) and _S.config['delimiter'] in _D",
-          'nested SingleListGraders need distinct delimiters', inline=0),
+          ["isinstance(_S, SingleListGrader) and isinstance(self.config['subgrader'], SingleListGrader) and _S.config['delimiter'] in _D",
+           "isinstance(_S, SingleListGrader) and _S.config['delimiter'] in _D"],
+          'nested SingleListGraders need distinct delimiters', inline=1),
     Cross('equal expect lengths', SLQ + 'post_schema_ans_val', "len(_E) != len(answer_tuple[0]['expect'][0])",
           'alternative answer lists must have the same length'),
+    Cross('empty answer list', SLQ + 'post_schema_ans_val', 'not _E', 'an answer list may not be empty'),
     Cross('det 0 traceless', SQM, DET0 + " and self.config['traceless']", 'zero-determinant traceless matrices are refused'),
     Cross('det 0 complex antisymmetric', SQM, DET0 + " and self.config['symmetry'] == 'antisymmetric' and self.config['complex']",
           'complex zero-determinant antisymmetric matrices are refused'),
@@ -871,64 +876,181 @@ WARN_KEYS = {'variables': 'default_variables', 'numbered_vars': 'default_variabl
 ERROR_BASES = ('ConfigError', 'Invalid', 'MultipleInvalid', 'MITxError')
 
 
+def _expand_quantifiers(guards, loops):
+    """Alternatives of (guards, loops): `any(E for x in IT)` as a guard is the same decision as a loop over IT that
+    raises under E (and `not all(E ...)` under not E); both readings are offered to the matcher."""
+    alts = [(list(guards), list(loops))]
+    for i, g in enumerate(guards):
+        neg = False
+        call = g
+        if isinstance(call, ast.UnaryOp) and isinstance(call.op, ast.Not):
+            call, neg = call.operand, True
+        if not (isinstance(call, ast.Call) and isinstance(call.func, ast.Name) and call.func.id in ('any', 'all')
+                and len(call.args) == 1 and isinstance(call.args[0], (ast.GeneratorExp, ast.ListComp))
+                and len(call.args[0].generators) == 1):
+            continue
+        comp = call.args[0]
+        gen = comp.generators[0]
+        if call.func.id == 'any' and not neg:
+            inner = nf.conjuncts(nf.canon(comp.elt))
+        elif call.func.id == 'all' and neg:
+            inner = nf.conjuncts(nf.negate(nf.canon(comp.elt)))
+        else:
+            continue
+        inner = inner + [nf.canon(x) for x in gen.ifs]
+        alts.append((guards[:i] + guards[i + 1:] + inner, list(loops) + [gen.iter]))
+    return alts
+
+
+def _loop_guards(node, fn_node):
+    """Tests of the enclosing while loops (they hold whenever the body runs)."""
+    out = []
+    for a in ancestors(node):
+        if a is fn_node:
+            break
+        if isinstance(a, ast.While):
+            out.extend(nf.conjuncts(nf.canon(a.test)))
+    return out
+
+
+def _followed_callees(idx, fi, anchors):
+    """Package helpers called from fi that are not reviewed anchors themselves: unreviewed functions and private helpers."""
+    out = []
+    for c in walk_own(fi.node):
+        if not isinstance(c, ast.Call):
+            continue
+        try:
+            targets, how = idx.resolve_call(fi, c)
+        except Exception:
+            continue
+        for t in targets:
+            q = getattr(t, 'qualname', None)
+            if q is None or not q.startswith('mitxgraders.') or q in anchors or q == fi.qualname:
+                continue
+            name = q.split('.')[-1]
+            if q in idx.unreviewed or (name.startswith('_') and not name.startswith('__')):
+                if t not in out:
+                    out.append(t)
+    return out
+
+
+def _sites_of(idx, fi):
+    """Raise sites of a function: (owner FuncInfo, raise node, [(guards, loops)], handler class names)."""
+    sites = []
+    for rs in lib.raises_of(fi.node):
+        if rs.exc is None:
+            continue
+        gs = _loop_guards(rs, fi.node) + guards_of(rs, fi.node)
+        loops = enclosing_loop_iters(rs, fi.node)
+        h = lib.in_handler(rs)
+        sites.append((fi, rs, _expand_quantifiers(gs, loops), lib.handler_class_names(h) if h is not None else []))
+    return sites
+
+
 def d5_cross(ctx, idx, fam):
     r = ctx.rule('D5.CROSS', 'every cross-option rule has a reachable raise site with the reviewed condition, and its checker '
-                             'runs on every construction path', floor=48)
+                             'runs on every construction path', floor=49)
     with r:
-        used = {}
+        anchors = {c.func for c in CROSS_RULES}
+        by_func = {}
         for c in CROSS_RULES:
-            construct = 'cross-rule [%s] in %s' % (c.key, c.func.split('.', 1)[1].replace('mitxgraders.', ''))
-            if not idx.has_func(c.func):
-                r.undecided(construct, 'anchor vanished: %s' % c.func)
+            by_func.setdefault(c.func, []).append(c)
+        for func, rules in by_func.items():
+            if not idx.has_func(func):
+                for c in rules:
+                    if not c.optional:
+                        r.undecided('cross-rule [%s]' % c.key, 'anchor vanished: %s' % func)
                 continue
-            fi = idx.func(c.func)
-            fcfg = cfg_of(fi.node)
-            raises = [x for x in lib.raises_of(fi.node) if x.exc is not None]
-            cands = []
-            for rs in raises:
-                if id(rs) in used.get(c.func, set()):
-                    continue
-                if c.handler is not None:
-                    h = lib.in_handler(rs)
-                    if h is not None and c.handler in lib.handler_class_names(h):
-                        cands.append((rs, nf.MATCH))
-                    continue
-                gs = guards_of(rs, fi.node)
-                if not gs:
-                    continue
-                if c.loop is not None:
-                    if not any(nf.classify(c.loop, it) == nf.MATCH for it in enclosing_loop_iters(rs, fi.node)):
+            fi = idx.func(func)
+            helpers = _followed_callees(idx, fi, anchors)
+            sites = _sites_of(idx, fi)
+            for h in helpers:
+                sites.extend(_sites_of(idx, h))
+            used = set()
+            missing = []
+            for c in rules:
+                construct = 'cross-rule [%s] in %s' % (c.key, c.func.split('.', 1)[1].replace('mitxgraders.', ''))
+                exact, diffs = [], []
+                for (owner, rs, alts, hnames) in sites:
+                    if id(rs) in used:
                         continue
-                conj = gs[0] if len(gs) == 1 else ast.BoolOp(op=ast.And(), values=list(gs))
-                if c.inline:
-                    conj = lib.inline_locals(conj, fi.node, depth=c.inline)
-                res = nf.classify(list(c.patterns), conj)
-                cands.append((rs, res, conj))
-            exact = [x for x in cands if x[1] == nf.MATCH]
-            diffs = [x for x in cands if isinstance(x[1], tuple)]
-            if exact:
-                rs = exact[0][0]
-                used.setdefault(c.func, set()).add(id(rs))
-                where = lib.loc(fi, rs)
-                cls = nf.exc_class_name(rs.exc)
-                if not any(lib.exc_is_subclass(idx, fi.module, cls, b) for b in ERROR_BASES):
-                    r.violation(construct, "the rule '%s' is enforced by raising %s, which is neither a configuration nor a validation "
-                                "error" % (c.what, cls), where, expected='ConfigError', found=cls)
-                    continue
-                nodes = fcfg.nodes_of(rs)
-                if not nodes or not fcfg.reaches([fcfg.entry], nodes):
-                    r.violation(construct, "the raise site that enforces '%s' is unreachable: a configuration that breaks the rule is "
-                                "accepted" % c.what, where)
-                    continue
-                r.ok(construct, 'raises %s when %s' % (cls, short(exact[0][2]) if len(exact[0]) > 2 else 'parsing fails'), where)
-            elif diffs:
-                rs, res, conj = diffs[0]
-                used.setdefault(c.func, set()).add(id(rs))
-                r.violation(construct, "the condition that enforces '%s' changed: %s" % (c.what, res[1]), lib.loc(fi, rs),
-                            expected=c.patterns[0], found=short(conj))
-            else:
-                r.violation(construct, "no raise site enforces '%s' any more in %s: a configuration that breaks the rule is accepted"
-                            % (c.what, fi.qualname.replace('mitxgraders.', '')), fi.loc, expected='if %s: raise ConfigError(...)' % c.patterns[0])
+                    if c.handler is not None:
+                        if c.handler in hnames:
+                            exact.append((owner, rs, None))
+                        continue
+                    for gs, loops in alts:
+                        if not gs:
+                            continue
+                        if c.loop is not None and not any(nf.classify(c.loop, it) == nf.MATCH for it in loops):
+                            continue
+                        conj = gs[0] if len(gs) == 1 else ast.BoolOp(op=ast.And(), values=list(gs))
+                        if c.inline:
+                            conj = lib.inline_locals(conj, owner.node, depth=c.inline)
+                        res = nf.classify(list(c.patterns), conj)
+                        if res == nf.MATCH:
+                            exact.append((owner, rs, conj))
+                            break
+                        if isinstance(res, tuple) and owner is fi:
+                            diffs.append((owner, rs, res, conj))
+                if exact:
+                    owner, rs, conj = exact[0]
+                    used.add(id(rs))
+                    where = lib.loc(owner, rs)
+                    if c.optional:
+                        continue
+                    cls = nf.exc_class_name(rs.exc)
+                    known_cls = cls is not None and (cls in lib.BUILTIN_EXC_PARENTS or idx.resolve_name(owner.module, cls)[0] == 'class')
+                    if not known_cls:
+                        r.undecided(construct, 'raised object `%s` is not a resolvable exception class' % short(rs.exc), where)
+                        continue
+                    if not any(lib.exc_is_subclass(idx, owner.module, cls, b) for b in ERROR_BASES):
+                        r.violation(construct, "the rule '%s' is enforced by raising %s, which is neither a configuration nor a validation "
+                                    "error" % (c.what, cls), where, expected='ConfigError', found=cls)
+                        continue
+                    ocfg = cfg_of(owner.node)
+                    nodes = ocfg.nodes_of(rs)
+                    if not nodes or not ocfg.reaches([ocfg.entry], nodes):
+                        r.violation(construct, "the raise site that enforces '%s' is unreachable: a configuration that breaks the rule is "
+                                    "accepted" % c.what, where)
+                        continue
+                    r.ok(construct, 'raises %s when %s' % (cls, short(conj) if conj is not None else 'parsing fails'), where)
+                elif diffs and not c.optional:
+                    owner, rs, res, conj = diffs[0]
+                    used.add(id(rs))
+                    r.violation(construct, "the condition that enforces '%s' changed: %s" % (c.what, res[1]), lib.loc(owner, rs),
+                                expected=c.patterns[0], found=short(conj))
+                elif not c.optional:
+                    missing.append((c, construct))
+            if missing:
+                leftover = []
+                dead = []
+                for (o, rs, alts, hn) in sites:
+                    if id(rs) in used:
+                        continue
+                    ocfg = cfg_of(o.node)
+                    nodes = ocfg.nodes_of(rs)
+                    if nodes and ocfg.reaches([ocfg.entry], nodes):
+                        leftover.append((o, rs))
+                    else:
+                        dead.append((o, rs))
+                unrev = [h.qualname for h in helpers if h.qualname in idx.unreviewed]
+                opaque_calls = [h.qualname for h in helpers]
+                for c, construct in missing:
+                    if leftover or unrev:
+                        why = []
+                        if leftover:
+                            why.append('%d raise site(s) with an unrecognised condition (first: `%s` at %s)' % (
+                                len(leftover), short(lib.enclosing_stmt(leftover[0][1]), 60), lib.loc(leftover[0][0], leftover[0][1])))
+                        if unrev:
+                            why.append('unreviewed helper(s) %s' % ', '.join(u.replace('mitxgraders.', '') for u in unrev))
+                        r.undecided(construct, "the raise site for '%s' was not recognised; the function has %s" % (c.what, ' and '.join(why)), fi.loc)
+                    else:
+                        r.violation(construct, "no reachable raise site enforces '%s' any more in %s (every reachable raise site of the "
+                                    "function is accounted for by another reviewed rule%s and it calls no unreviewed helper): a configuration "
+                                    "that breaks the rule is accepted" % (c.what, fi.qualname.replace('mitxgraders.', ''),
+                                    '; %d raise site(s) are unreachable, e.g. %s' % (len(dead), lib.loc(dead[0][0], dead[0][1])) if dead else ''),
+                                    lib.loc(dead[0][0], dead[0][1]) if dead else fi.loc,
+                                    expected='if %s: raise ConfigError(...)' % (c.patterns[0] if c.patterns[0] else 'parse error'))
         # --- the checkers run on every construction path
         for caller, callee, guard, argpats, count in HOPS:
             construct = 'hop %s -> %s' % (caller.replace('mitxgraders.', ''), callee)
